@@ -127,3 +127,17 @@ def register_t1(J):
                            "first exactly when the base does not start group-less; the three workers get the right objects "
                            "and the counts are handed over; result length = alloc_length = final count; tags from the base; "
                            "no path; frame: only *merged_file is written (C10)."))
+
+
+def register_t1b(J):
+    J.append(Job("setkeyvalue", ["C11", "C07"], "harness/setkey.c", sources=["lib/helpers.c"], contracts=["contracts/setkey.h"],
+                 enforce="setKeyValue", replace=["find_key", "new_key", "sk_store"], unwind=8, tier="T1",
+                 defines=["-DPART_SETKEYVALUE=1"], timeout=300, mem_gb=4, expect=[r"setKeyValue\.postcondition"],
+                 statement="C11 'a set creates or replaces exactly one entry', for any object size: found -> the typed store "
+                           "goes into that entry; not found -> exactly one entry is appended and the store goes into the LAST "
+                           "entry; any other lookup result -> refused, nothing appended, nothing stored."))
+    J.append(Job("initialize", ["C20", "C11"], "harness/setkey.c", sources=["lib/helpers.c"], stubs=["stubs/strdup_abstract.c"],
+                 contracts=["contracts/setkey.h"], enforce="initialize", replace=["setGroupList"], unwind=8, tier="T1",
+                 defines=["-DPART_INITIALIZE=1"], timeout=900, mem_gb=6, expect=[r"initialize\.postcondition"],
+                 statement="C20: initialize() determines EVERY field of the slot (group interned, key/value placeholders, no "
+                           "comments, line number 0, no quotes) and writes nothing but that slot - any array size, any index."))
